@@ -10,7 +10,7 @@ VARIABLES t, l
 tvars == <<vars, t, l>>
 
 Cont(p) == [serial |-> p[1], items |-> ToSetOf(p[2])]
-NamesOf(c) == (IF c.serial # 0 THEN {"@"} ELSE {}) \cup {it[1] : it \in c.items}
+NamesOf(c) == (IF c.serial >= 0 THEN {"@"} ELSE {}) \cup {it[1] : it \in c.items}
 
 first == Ev(t)[1]
 TraceInit ==
